@@ -69,7 +69,7 @@ def run(F, rep, tier, allfacts):
             ok = False
         rep.check(ok, "WHO-ctor", "Checked::new@%s#%s" % (short(n).rsplit("::", 2)[-2], d.rsplit("@", 1)[-1][:20]), "%s:%s" % (f["file"], line),
                   "Checked::new called from %s with bitmask `%s` (must be Basic in `basic`, or the source's bitmask unchanged)" % (n, d))
-    rep.floor("WHO-ctor", "Checked::new callers", ncall, 14)
+    rep.floor("WHO-ctor", "Checked::new callers", ncall, 10)
 
     # ---------------- bit insertion
     ins = []
@@ -78,7 +78,7 @@ def run(F, rep, tier, allfacts):
         d0 = describe(f, args[0], depth=8)
         if "checks_bitmask" in d0:
             ins.append((n, i, describe(f, args[1], depth=6), line, callee_name(c).rsplit("::", 1)[-1]))
-    rep.floor("DOM-bits", "insert sites on checks_bitmask", len(ins), 5)
+    rep.floor("DOM-bits", "insert sites on checks_bitmask", len(ins), 4)
     for n, i, bit, line, meth in ins:
         f = cg.fns[n]
         cfg = CFG(f)
